@@ -168,15 +168,15 @@ func C14BodyMenu(lens []int, maxN int) [][][]byte {
 
 // C14SmallHeaders is a short list of headers covering every digest item kind the Go type can hold.
 func C14SmallHeaders() []C14Header {
-	p, s, e := C14Hash32(1, 1), C14Hash32(0x40, 3), C14Hash32(0x80, 5)
+	p, s, e := C14TameHash32(0x11), C14TameHash32(0x22), C14TameHash32(0x33)
 	babe, frnk := [4]byte{'B', 'A', 'B', 'E'}, [4]byte{'F', 'R', 'N', 'K'}
 	return []C14Header{
 		{Parent: p, StateRoot: s, ExtrinsicsRoot: e, Number: 0},
-		{Parent: p, StateRoot: s, ExtrinsicsRoot: e, Number: 64, Items: []C14Item{{Kind: C14KindPreRuntime, Engine: babe, Data: C14Fill(13, 2, 1)}}},
+		{Parent: p, StateRoot: s, ExtrinsicsRoot: e, Number: 64, Items: []C14Item{{Kind: C14KindPreRuntime, Engine: babe, Data: C14Tame(13, 2)}}},
 		{Parent: p, StateRoot: s, ExtrinsicsRoot: e, Number: 16384, Items: []C14Item{
-			{Kind: C14KindPreRuntime, Engine: babe, Data: C14Fill(13, 2, 1)},
-			{Kind: C14KindConsensus, Engine: frnk, Data: C14Fill(5, 9, 1)},
-			{Kind: C14KindSeal, Engine: babe, Data: C14Fill(64, 1, 2)}}},
+			{Kind: C14KindPreRuntime, Engine: babe, Data: C14Tame(13, 2)},
+			{Kind: C14KindConsensus, Engine: frnk, Data: C14Tame(5, 9)},
+			{Kind: C14KindSeal, Engine: babe, Data: C14Tame(64, 1)}}},
 		{Parent: p, StateRoot: s, ExtrinsicsRoot: e, Number: 1 << 30, Items: []C14Item{{Kind: C14KindRuntimeEnv}, {Kind: C14KindConsensus, Engine: babe, Data: nil}}},
 	}
 }
